@@ -26,10 +26,16 @@ VARIABLES hist, acked,   \* acked: per mailbox, number of messages the contract 
 gvars == <<st, from, rcpts, boxes, maxRcpt, reply, hist, acked, prev>>
 
 NoHook == [action |-> "none"]
-HookOf(h) == CASE h = "none"  -> NoHook
-               [] h = "defer" -> [action |-> "defer"]
-               [] h = "allow" -> [action |-> "allow"]
-               [] h = "deny"  -> [action |-> "deny", code |-> 550, text |-> "denied by hook"]
+(* scripted hook answers (C17): garbage (wrong kind of value), a raised error, *)
+(* a runtime error and "no handler" all count as no answer; gofirst / golast  *)
+(* are answers of Go listeners registered ahead of / behind the Lua host      *)
+HookOf(h) == CASE h \in {"none", "nil", "num", "str", "tbl", "err", "rterr"} -> NoHook
+               [] h = "defer"   -> [action |-> "defer"]
+               [] h = "allow"   -> [action |-> "allow"]
+               [] h = "deny"    -> [action |-> "deny", code |-> 550, text |-> "Mail denied by policy"]
+               [] h = "denyc"   -> [action |-> "deny", code |-> 553, text |-> "custom text"]
+               [] h = "gofirst" -> [action |-> "deny", code |-> 521, text |-> "go first"]
+               [] h = "golast"  -> [action |-> "deny", code |-> 522, text |-> "go last"]
 
 MailDec(k, h) == [syntax |-> k # "badsyntax", size |-> k \notin {"sizebig", "sizebad"},
                   addr |-> k # "badaddr", hook |-> HookOf(h), origin |-> k # "origin"]
